@@ -197,6 +197,20 @@ def impl(req):
                     "peal_speed": rh[0], "inertia": f2b(rh[1]), "max_bells": rh[2], "gap": f2b(rh[3]), "use_wait": rh[4]})
         inner = getattr(r["rhythm"], "_inner_rhythm", r["rhythm"])
         out["min_bells"] = getattr(inner, "_min_bells_in_dataset", None)
+        if out["min_bells"] is None and rh[2] >= 6:
+            # the private name is gone: measure it (number of data points at the first regression; possible when
+            # the inertia given lets the first row regress and the memory is large enough to get there)
+            try:
+                from harness import genprobe
+                import time as _t
+                saved = _t.sleep
+                _t.sleep = lambda d: None
+                try:
+                    out["min_bells"] = genprobe._min_bells(r["rhythm"])
+                finally:
+                    _t.sleep = saved
+            except Exception:  # noqa
+                out["min_bells"] = None
         cls = type(gen).__name__
         if "Complib" in cls:
             urls = [u for (u, p) in implrun.HTTP.log[n_log:] if "complib" in u]
@@ -236,10 +250,11 @@ def compare(req, ir, mr, fields=None):
             keep |= {"cls"}
         a = {k: v for k, v in a.items() if k in keep}
         b = {k: v for k, v in b.items() if k in keep}
+    if a.get("min_bells") is None:
+        # (a private attribute of the rhythm: when it has been renamed the figure cannot be read, which is no difference)
+        a.pop("min_bells", None)
+        b.pop("min_bells", None)
     if a.get("out") == "built" and b.get("out") == "built" and "source" in a:
-        if a.get("min_bells") is None:
-            a.pop("min_bells", None)
-            b.pop("min_bells", None)
         sa, sb = a.pop("source"), b.pop("source")
         if sa["kind"] != sb["kind"]:
             return f"main({' '.join(ir['argv'][1:])!r}): rows come from {sa['kind']}, the model says {sb['kind']}"
